@@ -588,7 +588,9 @@ func c02Members(thorough bool) map[string][]cty.Value {
 			cty.NumberUIntVal(1 << 63), cty.NumberFloatVal(9223372036854775808), cty.NumberFloatVal(1e30), parseNum("1000000000000000019884624838656"),
 			// a float64 fraction widened to 64 bits by an arithmetic identity, and its own shortest text parsed again (512 bits): documented-equal
 			cty.NumberFloatVal(0.1).Add(cty.NumberIntVal(0)), parseNum(cty.NumberFloatVal(0.1).Add(cty.NumberIntVal(0)).AsBigFloat().Text('f', -1)),
-			cty.NumberFloatVal(2.5).Multiply(cty.NumberIntVal(1))},
+			cty.NumberFloatVal(2.5).Multiply(cty.NumberIntVal(1)),
+			// both signs of zero (equal, so one member)
+			cty.NumberFloatVal(math.Copysign(0, -1)), cty.Zero.Negate(), parseNum("-0")},
 		"s":    {cty.StringVal(""), cty.StringVal("a"), cty.StringVal("e\u0301"), cty.StringVal("\u00e9"), cty.StringVal("k1"), cty.NullVal(cty.String)},
 		"b":    {cty.True, cty.False, cty.NullVal(cty.Bool)},
 		"L(n)": {cty.ListValEmpty(cty.Number), cty.ListVal([]cty.Value{cty.Zero}), cty.ListVal([]cty.Value{cty.Zero, cty.NumberIntVal(1)}), cty.NullVal(cty.List(cty.Number))},
